@@ -197,6 +197,9 @@ func same(a, b child.Obs) string {
 	if !reflect.DeepEqual(a.Listening, b.Listening) {
 		return fmt.Sprintf("listening sockets %v vs %v", a.Listening, b.Listening)
 	}
+	if !reflect.DeepEqual(a.ExtraFDs, b.ExtraFDs) {
+		return fmt.Sprintf("listening sockets held by more than one descriptor %v vs %v", a.ExtraFDs, b.ExtraFDs)
+	}
 	if a.Hooks != b.Hooks {
 		return fmt.Sprintf("%d event hooks vs %d", a.Hooks, b.Hooks)
 	}
